@@ -4,14 +4,20 @@ Lean side: Props/C12.lean (piecewise continuity of the region handlers and wrapp
 the gains on a shared edge, agreement of adjacent triplets on their shared edge); the model, driver and the
 correspondence with the real code are those of C05 (harness/c05.py).  Search here: pairs of neighbouring
 directions on great circles / meridians through every region edge, vertex and pole, bisected down to 1e-9 rad.
+Table-level: `extract` regenerates Gen/C12_Faces.lean (for every pair of triplet cells of the ten nominal configured panners:
+shared positions + a strictly separating plane through them, exact arithmetic), which the kernel re-decides
+(Faces.facesCertOk, `faces_tables_ok`) and Proofs/C12Faces.lean turns into `MeetInSharedFace` / the sliver-bound constants.
 """
+import json
 import math
+import os
 import random
+from fractions import Fraction
 
 import numpy as np
 
-from . import c05
-from .common import Spec
+from . import c05, c05_cover, common
+from .common import Spec, write_if_changed
 
 FINAL_ANGLE = 1e-9
 JUMP_ABS = 1e-6
@@ -632,6 +638,217 @@ def cone_directed(pan, rep, hits, counts):
     return calls
 
 
+# --------------------------------------------------------------------------------------
+# "regions meet only in shared faces" certificate (Gen/C12_Faces.lean), re-decided by the Lean kernel
+# (Earverif.PointSource.Faces.facesCertOk, Model/PointSourceFaces.lean): for every pair of triplet cells of the REAL
+# configured panner (Triplet regions and the inner triplets of every VirtualNgon) the shared positions and a plane
+# through them that separates the remaining vertices STRICTLY; exact integer arithmetic (coordinates * 2^K).
+
+
+class FacesError(Exception):
+    def __init__(self, what, detail=None):
+        Exception.__init__(self, what)
+        self.what = what
+        self.detail = detail or {}
+
+
+def _scaled(v, K):
+    out = []
+    for x in v:
+        fr = Fraction(float(x)) * (1 << K)
+        if fr.denominator != 1:
+            raise FacesError("coordinate is not an integer multiple of 2^-K", {"K": K, "value": float(x)})
+        out.append(int(fr))
+    return tuple(out)
+
+
+def faces_cells(pan, K):
+    """Triplet regions and inner triplets of the n-gons, in region order: dicts region, fan, kind (0/1), rows (scaled ints),
+    keys (exact float triples), lch (channels inside the region), gch (panner output channels, None = virtual centre)."""
+    cells = []
+    for k, r in enumerate(pan.regions):
+        kind = c05.region_kind(r)
+        if kind == "Triplet":
+            pos = np.asarray(r.positions, dtype=float)
+            ch = [int(c) for c in r.output_channels]
+            cells.append({"region": k, "fan": 0, "kind": 0, "rows": [_scaled(v, K) for v in pos],
+                          "keys": [tuple(float(x) for x in v) for v in pos], "lch": ch, "gch": list(ch)})
+        elif kind == "VirtualNgon":
+            glob = [int(c) for c in r.output_channels]
+            for f, t in enumerate(r.regions):
+                pos = np.asarray(t.positions, dtype=float)
+                lch = [int(c) for c in t.output_channels]
+                cells.append({"region": k, "fan": f, "kind": 1, "rows": [_scaled(v, K) for v in pos],
+                              "keys": [tuple(float(x) for x in v) for v in pos], "lch": lch,
+                              "gch": [glob[lch[0]], glob[lch[1]], None]})
+    return cells
+
+
+def _separator(pos, neg):
+    """float vector w with w.v > 0 for v in pos and w.v < 0 for v in neg (perceptron with a margin), or None"""
+    vecs = [v / np.linalg.norm(v) for v in pos] + [-v / np.linalg.norm(v) for v in neg]
+    w = np.sum(vecs, axis=0)
+    for it in range(4000):
+        m = [float(np.dot(w, v)) for v in vecs]
+        i = int(np.argmin(m))
+        if m[i] > 0.05 * np.linalg.norm(w) and it > 50:
+            break
+        w = w + 0.5 * vecs[i]
+    return w if min(float(np.dot(w, v)) for v in vecs) > 0 else None
+
+
+def faces_pair(X, Y, K):
+    """-> dict(shared, perm, flip, w, n) for the ordered pair (X, Y); raises FacesError if there is no strict separation."""
+    xs, ys = X["rows"], Y["rows"]
+    shared = [(i, Y["keys"].index(X["keys"][i])) for i in range(3) if X["keys"][i] in Y["keys"]]
+    same = X["region"] == Y["region"]
+    for i, j in shared:
+        if (X["lch"][i] != Y["lch"][j]) if same else (X["gch"][i] is None or X["gch"][i] != Y["gch"][j]):
+            raise FacesError("a shared position on two different channels", {"cells": [X["region"], X["fan"], Y["region"], Y["fan"]]})
+    if len(shared) > 2:
+        raise FacesError("two cells with the same three positions", {"cells": [X["region"], X["fan"], Y["region"], Y["fan"]]})
+    sx = [i for i, _ in shared]
+    sy = [j for _, j in shared]
+    nsx = [k for k in range(3) if k not in sx]
+    nsy = [k for k in range(3) if k not in sy]
+
+    def ok(n):
+        return (all(_idot(n, xs[k]) == 0 for k in sx) and all(_idot(n, xs[k]) > 0 for k in nsx) and
+                all(_idot(n, ys[k]) == 0 for k in sy) and all(_idot(n, ys[k]) < 0 for k in nsy))
+
+    sc = 2.0 ** K
+    fx = [np.array([float(c) / sc for c in v]) for v in xs]
+    fy = [np.array([float(c) / sc for c in v]) for v in ys]
+    found = None
+    if len(shared) == 2:
+        n0 = _icross(xs[sx[0]], xs[sx[1]])
+        for fl in (False, True):
+            n = tuple(-c for c in n0) if fl else n0
+            if ok(n):
+                found = (fl, (0, 0, 0), n)
+                break
+    else:
+        if len(shared) == 1:
+            fa = fx[sx[0]]
+            w = _separator([np.cross(fx[k], fa) for k in nsx], [np.cross(fy[k], fa) for k in nsy])
+        else:
+            w = _separator(fx, fy)
+        if w is not None:
+            for bits in (6, 10, 16, 24, 40):
+                wi = tuple(int(round(c / np.max(np.abs(w)) * (1 << bits))) for c in w)
+                n = _icross(xs[sx[0]], wi) if len(shared) == 1 else wi
+                if ok(n):
+                    found = (False, wi, n)
+                    break
+    if found is None:
+        raise FacesError("no plane through the shared positions separates the two cells strictly (their cones overlap, or touch "
+                         "along more than the shared face)", {"cells": [X["region"], X["fan"], Y["region"], Y["fan"]], "shared_rows": shared,
+                                                            "vertices_a": [list(k) for k in X["keys"]], "vertices_b": [list(k) for k in Y["keys"]]})
+    perm = [None, None, None]
+    for i, j in shared:
+        perm[j] = i
+    rest = iter(nsx)
+    for j in range(3):
+        if perm[j] is None:
+            perm[j] = next(rest)
+    return {"shared": shared, "perm": perm, "flip": found[0], "w": found[1], "n": found[2]}
+
+
+def faces_consts(X, Y, pr):
+    """(kappa, alpha) as Fractions for a pair of Triplet regions (see Model/PointSourceFaces.lean)"""
+    xs, ys, n = X["rows"], Y["rows"], pr["n"]
+    A = sum(_idot(n, v) for v in xs)
+    B = -sum(_idot(n, v) for v in ys)
+    D = _idot(xs[0], _icross(xs[1], xs[2]))
+    kappa, alpha = Fraction(1), Fraction(0)
+    sy = [j for _, j in pr["shared"]]
+    for j in range(3):
+        if j in sy:
+            continue
+        kappa = max(kappa, Fraction(A + B, -_idot(n, ys[j])))
+        for i in range(3):
+            rows = list(xs)
+            rows[i] = ys[j]
+            alpha = max(alpha, Fraction(abs(_idot(rows[0], _icross(rows[1], rows[2]))), abs(D)))
+    return kappa, alpha
+
+
+def faces_build(pan, K):
+    cells = faces_cells(pan, K)
+    for c in cells:
+        if _idot(c["rows"][0], _icross(c["rows"][1], c["rows"][2])) == 0:
+            raise FacesError("a triplet cell with linearly dependent positions", {"cell": [c["region"], c["fan"]]})
+    pairs = []
+    kappa, alpha = Fraction(1), Fraction(0)
+    stats = {"disjoint": 0, "shared-vertex": 0, "shared-edge": 0}
+    for i in range(len(cells)):
+        for j in range(i + 1, len(cells)):
+            pr = faces_pair(cells[i], cells[j], K)
+            pr["x"], pr["y"] = i, j
+            pairs.append(pr)
+            stats[("disjoint", "shared-vertex", "shared-edge")[len(pr["shared"])]] += 1
+            if cells[i]["kind"] == 0 and cells[j]["kind"] == 0:
+                k, a = faces_consts(cells[i], cells[j], pr)
+                kappa, alpha = max(kappa, k), max(alpha, a)
+    return {"cells": cells, "pairs": pairs, "kappa": int(math.ceil(kappa)), "alpha": int(math.ceil(alpha)), "stats": stats}
+
+
+def _cell_text(c):
+    return "{ region := %d, fan := %d, kind := %d, rows := [%s], lch := [%s], gch := [%s] }" % (
+        c["region"], c["fan"], c["kind"], ", ".join("(%d, %d, %d)" % r for r in c["rows"]), ", ".join(str(k) for k in c["lch"]),
+        ", ".join("none" if g is None else "some %d" % g for g in c["gch"]))
+
+
+def _pair_text(p):
+    return "{ x := %d, y := %d, shared := [%s], perm := [%s], flip := %s, w := (%d, %d, %d) }" % (
+        p["x"], p["y"], ", ".join("(%d, %d)" % s for s in p["shared"]), ", ".join(str(k) for k in p["perm"]),
+        "true" if p["flip"] else "false", p["w"][0], p["w"][1], p["w"][2])
+
+
+def faces_text(names, certs):
+    """`certs[i]` = faces_build(...) result or None (no certificate: empty lists, the kernel check then fails)."""
+    lines = [
+        "/- GENERATED by harness/c12.py from point_source.configure(layout.without_lfe) - do not edit.",
+        "   'Regions meet only in shared faces' certificate per layout of Gen/C05_Tables.lean (same order): the triplet cells",
+        "   (Triplet regions; inner triplet number `fan` of every VirtualNgon region) with their positions times 2^K as integer",
+        "   literals, their channels inside the region and in the panner; for every pair of cells (canonical order) the rows with",
+        "   the same position, a row matching `perm`, and the separating plane: normal `w` (no shared row), `a x w` (one shared",
+        "   row a), `+-(a x b)` (two shared rows); `alpha`, `kappa`: constants of the quantitative sliver bound. -/",
+        "import Earverif.Model.PointSourceFaces",
+        "namespace Earverif.Gen.C12Faces",
+        "open Earverif.PointSource.Faces",
+        "",
+    ]
+    cnames = []
+    for li, (name, cert) in enumerate(zip(names, certs)):
+        cells = cert["cells"] if cert else []
+        pairs = cert["pairs"] if cert else []
+        cchunks = []
+        for ci in range(0, len(cells), 10):
+            cn = "F%d_c%d" % (li, ci // 10)
+            lines.append("def %s : List RCell := [" % cn)
+            lines.append(",\n".join("  " + _cell_text(c) for c in cells[ci:ci + 10]))
+            lines.append("]")
+            cchunks.append(cn)
+        lines.append("def F%d_cells : List RCell := %s" % (li, " ++ ".join(cchunks) if cchunks else "[]"))
+        chunks = []
+        for ci in range(0, len(pairs), 20):
+            cn = "F%d_p%d" % (li, ci // 20)
+            lines.append("def %s : List PairCert := [" % cn)
+            lines.append(",\n".join("  " + _pair_text(p) for p in pairs[ci:ci + 20]))
+            lines.append("]")
+            chunks.append(cn)
+        lines.append("/-- %s -/" % name)
+        lines.append("def F%d : FacesCert := { cells := F%d_cells, pairs := %s, alpha := %d, kappa := %d }" % (
+            li, li, " ++ ".join(chunks) if chunks else "[]", cert["alpha"] if cert else 0, cert["kappa"] if cert else 0))
+        lines.append("")
+        cnames.append("F%d" % li)
+    lines.append("def faces : List FacesCert := [%s]" % ", ".join(cnames))
+    lines.append("")
+    lines.append("end Earverif.Gen.C12Faces")
+    return "\n".join(lines) + "\n"
+
+
 THEOREMS = (
     "edge_unique",
     "edge_exists",
@@ -663,6 +880,30 @@ THEOREMS = (
     "triplet_sliver_bound_general",
     "triplet_sliver_bound",
     "two_triplet_panner_jump_bound",
+    # the virtual n-gon and panners of triplets and n-gons at slack 0 (Proofs/C12Ngon.lean)
+    "ngon_handleE_eps",
+    "ngon_handle_continuousOn",
+    "pannerTNE_eps",
+    "panner_continuousOn_tri_ngon_partial",
+    # two triplets in any arrangement, quantitatively; a whole list of triplets with the code's threshold (Proofs/C12Faces.lean)
+    "pair_gain_bound",
+    "pair_out_bound",
+    "panner_jump_bound_triplets",
+    # the regenerated tables: "regions meet only in shared faces" decided by the kernel, and what follows from it
+    "faces_tables_ok",
+    "Faces.faces_sound",
+    "tripletTR_regions",
+    "tables_triplet_pairs_meet_in_faces",
+    "tables_triplet_panner_continuousOn",
+    "tables_triplet_panner_jump_bound",
+    "tables_ngon_continuousOn",
+    # the quad on the cone of its corners (closed-form root selection, C05's sign certificate)
+    "continuousOn_of_unique_zero",
+    "unit_root_unique",
+    "axis_unique_root",
+    "quad_cone_continuousOn_partial",
+    "quad_handle_continuousOn_cone_partial",
+    "tables_quad_continuousOn_cone_partial",
     "C12_partial",
 )
 
@@ -674,18 +915,25 @@ class C12(Spec):
     theorems = tuple("Earverif.PointSource." + t for t in THEOREMS)
     trusted_base = c05.C05.trusted_base + (
         "continuity theorems are over the reals: piecewise (per region handler / wrapper), the pasting theorem for the first-accept "
-        "loop (firstAccept_continuousOn, panner_continuousOn_of_regions) and its instance for an all-triplet panner in the "
-        "idealisation 'acceptance slack 0' (panner_continuousOn_triplets_partial); with the code's slack -1e-11 neighbouring "
-        "triplets differ by at most C*1e-11 on the overlap (triplet_sliver_bound), i.e. the code's function is continuous only up to "
-        "jumps of that order (firstAccept_jump_bound, panner_jump_bound_of_regions; end to end only for a panner of two edge-sharing "
-        "triplets: two_triplet_panner_jump_bound); that the regions cover the sphere, the pairwise C*1e-11 agreement for every pair "
-        "of a whole layout, and quads / n-gons inside the pasted panner, are searched, not proved",
-        "the combinatorial hypothesis of panner_continuousOn_triplets_partial (MeetInSharedFace: the slack-0 cones of two regions "
-        "meet only in a shared vertex / edge, shared positions on the same channel) is CHECKED, not proved: on every run, for the "
-        "ten nominal layouts, in exact integer arithmetic on the binary64 vertex coordinates of the real configured regions "
-        "(cone_report: triplets, the inner triplets of every n-gon, and for quads the cone bounded by the planes through "
-        "consecutive corners); results are in the evidence counts 'cone-pairs|...'; an overlap is reported (tag cone-overlap) only "
-        "together with an actual gain jump found by the bisection search through the overlap",
+        "loop (firstAccept_continuousOn, panner_continuousOn_of_regions) and its instances in the idealisation 'acceptance slack 0': "
+        "all-triplet panner (panner_continuousOn_triplets_partial), virtual n-gon (ngon_handle_continuousOn), panner of triplets and "
+        "n-gons (panner_continuousOn_tri_ngon_partial); with the code's slack -1e-11 two triplets in ANY arrangement (rows permuted, "
+        "shared edge, shared vertex or nothing shared) differ by at most 45*(3*alpha+1)*kappa*1e-11 per channel where both accept "
+        "(pair_gain_bound, pair_out_bound), so a panner of triplets is continuous up to jumps of that order (panner_jump_bound_triplets; "
+        "on the ten tables tables_triplet_panner_jump_bound, eta < 2.2e-7); QuadRegion.handle with the closed-form root selection is "
+        "continuous on the cone of its corners under C05's sign certificate (quad_handle_continuousOn_cone_partial, "
+        "tables_quad_continuousOn_cone_partial); NOT proved: the global statement for a whole layout's panner (quads are not inside "
+        "the pasted panner: their acceptance set under the code's tolerances is not closed and their agreement with neighbours is "
+        "proved only given the roots), n-gons with the code's slack, the triplet/n-gon cross pairs assembled on the tables; "
+        "these are searched",
+        "the combinatorial hypothesis of the pasting instances (MeetInSharedFace: the slack-0 cones of two cells meet only in a shared "
+        "vertex / edge, shared positions on the same channel) is now DECIDED BY THE LEAN KERNEL on every run for the ten nominal "
+        "layouts: harness/c12.py regenerates Gen/C12_Faces.lean from the real configured panner (triplet cells = Triplet regions and "
+        "inner triplets of the n-gons; per pair the shared rows and a strictly separating plane through them; constants alpha, kappa), "
+        "Faces.facesCertOk re-checks it in exact integer arithmetic against the regenerated region table (faces_tables_ok), "
+        "Faces.faces_sound turns it into the real statements; the harness's own exact cone check (cone_report: also quads, as the "
+        "cone bounded by the planes through consecutive corners) stays as search guidance: an overlap is reported (tag cone-overlap) "
+        "only together with an actual gain jump found by the bisection search through the overlap",
     )
     assumptions = (
         "layouts: the ten nominal layouts, a fixed catalogue of admissible symmetric real layouts, the fixed catalogue of "
@@ -740,6 +988,36 @@ class C12(Spec):
 
     def extract(self, ctx):
         c05.SPEC.extract(ctx)
+        self.extract_faces(ctx)
+
+    def extract_faces(self, ctx):
+        """'Regions meet only in shared faces' certificate (Gen/C12_Faces.lean) from the real configured panners, exact
+        arithmetic.  A pair of cells without a strictly separating plane through its shared positions (overlapping cones, a
+        shared position on two channels, a degenerate cell) is NOT patched: the layout gets an empty certificate (so the kernel
+        check `faces_ok_<i>` fails too) and a broken obligation that says which pair; the search then runs deep."""
+        pans = [c05.Pan(name, name) for name in c05.LAYOUT_NAMES]
+        K = c05_cover.scale_exponent([p.regions for p in pans])
+        certs = []
+        for pan in pans:
+            try:
+                cert = faces_build(pan, K)
+                certs.append(cert)
+                ctx.obligation("faces-certificate:" + pan.name, True, "%d triplet cells, %d pairs (%s), alpha=%d kappa=%d" % (
+                    len(cert["cells"]), len(cert["pairs"]), ", ".join("%d %s" % (v, k) for k, v in sorted(cert["stats"].items())),
+                    cert["alpha"], cert["kappa"]))
+                ctx.count("faces|cells|" + pan.name, len(cert["cells"]))
+                for kk, v in cert["stats"].items():
+                    ctx.count("faces|pairs|%s|%s" % (pan.name, kk), v)
+            except FacesError as e:
+                certs.append(None)
+                ctx.obligation("faces-certificate:" + pan.name, False,
+                               "two triplet cells of configure(%s) do not meet in a shared face only: %s %s"
+                               % (pan.name, e.what, json.dumps(e.detail, default=str)[:600]))
+        text = faces_text(c05.LAYOUT_NAMES, certs)
+        changed = write_if_changed(os.path.join(common.GEN, "C12_Faces.lean"), text)
+        ctx.count("faces-certificate:regenerated" if changed else "faces-certificate:unchanged")
+        ctx.notes.append("Gen/C12_Faces.lean: %d bytes, %d cells, %d pairs, scale 2^%d" % (
+            len(text), sum(len(c["cells"]) for c in certs if c), sum(len(c["pairs"]) for c in certs if c), K))
 
     def _guided_tasks(self, ctx):
         """Tasks for the disagreement-guided search: paths through every direction on which model and code disagreed, on the
@@ -839,29 +1117,40 @@ REGISTRY = dict(
     "Pasting (topological half): firstAccept_eq_of_agree, firstAccept_continuousOn, panner_continuousOn_of_regions: for finitely "
     "many regions whose acceptance sets are closed in the set of directions, with handlers continuous on them and agreeing "
     "pairwise on the overlaps, the first-accept loop of PointSourcePanner.handle is continuous on the union and equals any "
-    "accepting region's value; triplet_accept_isClosed, triplet_accept_isClosed_code, ngon_accept_isClosed: the triplet / n-gon "
-    "acceptance sets are closed (quad: only quad_accept_isOpen_of_roots, closedness depends on the root selection); "
-    "panner_continuousOn_triplets_partial (+ shared_face_agreement, tripletPannerE_eps): an all-triplet panner in the "
-    "idealisation 'acceptance slack 0' is continuous on the union of its cones when any two cones meet only in a shared "
-    "vertex/edge (that combinatorial hypothesis is checked in exact arithmetic on the real configured nominal panners on every "
-    "run); triplet_sliver_bound(_general): with the code's slack 1e-11 two edge-sharing triplets differ by at most C*1e-11 where "
-    "both accept, C explicit in the basis; firstAccept_jump_bound, panner_jump_bound_of_regions: regions agreeing only up to eta on "
-    "the overlaps give a first-accept function / model panner whose jumps are bounded by eta; two_triplet_panner_jump_bound: end "
-    "to end for the code's threshold, the model's PointSourcePanner.handle on two edge-sharing triplets is continuous up to jumps "
-    "of C*1e-11 on every channel; conjunction C12_partial. "
-    "NOT proved (searched): that the regions cover the sphere; the global 'continuous up to C*1e-11' statement for a whole "
-    "layout's panner with the code's slack (reduced by panner_jump_bound_of_regions to pairwise eta-agreement, which is proved "
-    "only for edge-sharing triplets in the arrangement (u,v,w)/(u,v,w'), not for row permutations or the slivers around a vertex "
-    "shared by non-adjacent triplets); quads and n-gons inside the pasted panner (closedness "
-    "of the quad acceptance set, unconditional n-gon/quad edge agreement: root selection of np.roots, order of the inner "
-    "triplets; continuity of the n-gon handler).",
-    note="Model, driver and correspondence are C05's (re-run here). Table-level: exact cone-overlap check of every pair of regions "
-    "of the ten nominal configured panners (hypothesis of the pasting instance). Search: great circles and meridians through "
-    "every region edge, vertex, pole and loudspeaker + full circles, bisected to 1e-9 rad; jump threshold 1e-6 + 4*L*angle; "
-    "guided by (a) the directions on which model and code disagree in the correspondence and (b) directions at which a quad "
-    "answers although its pan quadratic has no real root (sampled in proportion to the area of the negative-discriminant set).",
-    technique="Lean 4 continuity/uniqueness/pasting proofs over the reals (Mathlib topology) on the scalar-polymorphic model + exact "
-    "integer check of the pasting theorem's combinatorial hypothesis on the real regions + differential correspondence "
-    "+ bisection search for gain jumps on the real panner",
+    "accepting region's value; triplet_accept_isClosed(_code), ngon_accept_isClosed (quad: only quad_accept_isOpen_of_roots). "
+    "Slack 0 instances: panner_continuousOn_triplets_partial (all-triplet panner), ngon_handle_continuousOn (the VirtualNgon "
+    "handler is continuous on its acceptance set: inner triplets pasted along their shared edges, the centre downmix never "
+    "vanishes; ngon_handleE_eps ties the slack-parametrised handler to the model), panner_continuousOn_tri_ngon_partial "
+    "(panners of Triplet and VirtualNgon regions; pannerTNE_eps). "
+    "The code's slack: triplet_sliver_bound(_general) and, for two triplets in ANY arrangement (row permutations, slivers around "
+    "a shared vertex, shared edge, nothing shared), pair_gain_bound / pair_out_bound: where both accept the outputs differ by at "
+    "most 45*(3*alpha+1)*kappa*1e-11 per channel, alpha/kappa from a separating plane; firstAccept_jump_bound, "
+    "panner_jump_bound_of_regions, two_triplet_panner_jump_bound, panner_jump_bound_triplets: the model's "
+    "PointSourcePanner.handle over any list of such triplets is continuous up to jumps of that size on every channel. "
+    "Tables (regenerated on every run, decided by the kernel): faces_tables_ok (every pair of triplet cells - Triplet regions and "
+    "inner triplets of the n-gons - of each nominal layout is separated strictly by a plane through its shared positions; "
+    "Faces.faces_sound), hence tables_triplet_pairs_meet_in_faces (MeetInSharedFace for all pairs of Triplet regions, formerly "
+    "checked by the harness), tables_triplet_panner_continuousOn, tables_triplet_panner_jump_bound (the Triplet regions of every "
+    "nominal layout as a panner with the code's threshold: jumps < 2.2e-7; tripletTR_regions ties the list to the modelled "
+    "panner), tables_ngon_continuousOn (every n-gon of the tables at slack 0). "
+    "Quads: continuousOn_of_unique_zero, unit_root_unique, axis_unique_root, quad_cone_continuousOn_partial, "
+    "quad_handle_continuousOn_cone_partial, tables_quad_continuousOn_cone_partial: with the closed-form root selection and C05's "
+    "sign certificate (quad_tables_ok) the selected pan value is THE root in [0,1] and QuadRegion.handle is continuous on the "
+    "cone of its four corners, for every QuadRegion of the ten tables. Conjunction C12_partial. "
+    "NOT proved (searched): the global statement for a whole layout's panner - every nominal layout has QuadRegions, whose "
+    "acceptance set under the code's tolerances is larger than the corner cone and not closed, and whose agreement with "
+    "neighbours on shared edges is proved only given the roots (quad_two_valued_witness shows what can go wrong without the "
+    "sign certificate); the n-gon with the code's slack; the triplet/n-gon cross pairs assembled into one panner on the tables "
+    "(the certificate and Faces.faces_sound cover them); coverage is C05's.",
+    note="Model, driver and correspondence are C05's (re-run here). Table-level: Gen/C12_Faces.lean (shared rows + separating plane "
+    "for every pair of triplet cells of the ten nominal configured panners, exact arithmetic) is regenerated from the real code "
+    "and re-decided by the kernel (a pair without a strictly separating plane is a broken obligation naming the pair, and the "
+    "search runs deep); the harness's own exact cone-overlap check (incl. quads) guides the search. Search: great circles and "
+    "meridians through every region edge, vertex, pole and loudspeaker + full circles, bisected to 1e-9 rad; jump threshold "
+    "1e-6 + 4*L*angle (above the proved 2.2e-7 for triplets); guided by (a) the directions on which model and code disagree in "
+    "the correspondence and (b) directions at which a quad answers although its pan quadratic has no real root.",
+    technique="Lean 4 continuity/uniqueness/pasting proofs over the reals (Mathlib topology; tube lemma for the quad root) on the "
+    "scalar-polymorphic model + kernel-decided separating-plane certificate regenerated from the real regions + differential "
+    "correspondence + bisection search for gain jumps on the real panner",
     design_ref="DESIGN.md section 4, C12",
 )
